@@ -17,7 +17,7 @@ from ..findings import Report
 def expected_cells(maxn):
     cells = strlen_cells = 0
     for n in range(maxn + 1):
-        per_content = sum(5 * 2 ** L + 8 * 3 ** L + 3 for L in range(n + 1)) + 3
+        per_content = sum(5 * 2 ** L + 13 * 3 ** L + 3 for L in range(n + 1)) + 3  # 13 = 8 + single-pass iterator, range, string x 3 modes
         cells += 3 * (3 ** n) * per_content
         strlen_cells += 3 * 3 ** n
     return cells, strlen_cells
